@@ -580,4 +580,21 @@ def c_roundtrip_oracle(tj, cases, answers):
             if e is None or e.split(" ")[:2] != [str(page), str(b)]:
                 bad.append(dict(input="T %d %d" % (lid, page), byte=b, decodes_to=x, encode_input="t %d %d %s" % (lid, page, n), c=e,
                                 reason="tag token decodes to a name that is encoded, in that page, with another token"))
+    # namespaces: every row (namespace, page) of a namespace table is found in both directions by the C's own look-ups
+    nmap, pmap = {}, {}
+    for (line, kind), a in zip(cases, answers):
+        f = line.split(" ")
+        if f[0] == "n":
+            nmap[(int(f[1]), int(f[2]))] = a
+        elif f[0] == "p" and len(f) > 2:
+            pmap[(int(f[1]), f[2])] = a
+    for l in tj["langs"]:
+        for r in rows(tj, l, "ns") or []:
+            ns, page = r[0], r[1]
+            got_ns = nmap.get((l["id"], page))
+            got_pg = pmap.get((l["id"], hx(ns)))
+            if got_ns is not None and got_ns != hx(ns):
+                bad.append(dict(input="n %d %d" % (l["id"], page), c=got_ns, reason="the code page of namespace %r does not map back to it" % ns))
+            if got_pg is not None and got_pg != str(page):
+                bad.append(dict(input="p %d %s" % (l["id"], hx(ns)), c=got_pg, reason="namespace %r does not map to its code page %d" % (ns, page)))
     return bad
